@@ -4,6 +4,10 @@
 impl PartialEq for Byte32 {
     #[verifier::external_body] fn eq(&self, o: &Byte32) -> (r: bool) ensures r == (*self == *o) { unimplemented!() }
 }
+impl vstd::std_specs::cmp::PartialEqSpecImpl for Byte32 {
+    open spec fn obeys_eq_spec() -> bool { true }
+    open spec fn eq_spec(&self, o: &Byte32) -> bool { *self == *o }
+}
 #[verifier::external_body] pub struct BlockView { _x: u64 }
 #[verifier::external_body] pub struct HeaderView { _x: u64 }
 #[verifier::external_body] pub struct PackedBlock { _x: u64 }
